@@ -52,7 +52,7 @@ WALKS = {
     "quick": {
         "C02": [["--runs", 300, "--steps", 45, "--origins", 2, "--maxreq", 6]],
         "C03": [["--runs", 350, "--steps", 40, "--origins", 1, "--maxreq", 5, "--h2prob", "0.7", "--cancelw", 3],
-                ["--runs", 100, "--steps", 40, "--origins", 2, "--maxreq", 6, "--h2prob", "0.6", "--droppool"]],
+                ["--runs", 100, "--steps", 40, "--origins", 2, "--maxreq", 6, "--h2prob", "0.6", "--droppool", "--nopool"]],
         "C04": [["--runs", 350, "--steps", 40, "--origins", 1, "--maxreq", 6, "--h2prob", "0.6"],
                 ["--runs", 15, "--steps", 45, "--origins", 1, "--maxreq", 7, "--h2prob", "0.15", "--tick", "--cancelw", 1],
                 ["--runs", 25, "--steps", 8, "--origins", 1, "--maxreq", 12, "--h2prob", "0.0", "--tick", "--aging", "--cancelw", 0]],
@@ -234,7 +234,8 @@ def run(pid, tier, seed, t0, asbuilt=None):
     if pid == "C03":
         # liveness checking is far more expensive than safety: 2 requests (the dial bound must be >= the number of
         # requests, else a request blocked by the bound looks stranded); the 3-request space is covered by NoOrphan
-        lc = dict(consts, NReq=2, MaxDial=2 if tier == "quick" else 3, MaxIdles="{1}" if tier == "quick" else "{1, 2}")
+        # pool absence (DropPool, and `without_pool` from the start) is part of the liveness slice in both tiers
+        lc = dict(consts, NReq=2, MaxDial=2 if tier == "quick" else 3, MaxIdles="{1}" if tier == "quick" else "{1, 2}", AllowDrop="TRUE")
         cfgl = f"_{pid}_{tier}_live.cfg"
         write_cfg(os.path.join(vlib.SPEC, cfgl), lc, "", "", fair=True)
         live = vlib.tlc("MC_Pool.tla", cfgl, pid, workers=8, timeout=3400)
@@ -248,6 +249,8 @@ def run(pid, tier, seed, t0, asbuilt=None):
 
     # ---- 2. generate behaviours
     gconsts = dict(consts, MaxDial=max(3, consts["MaxDial"]), Faults="AllFaults" if pid in ("C02",) else consts["Faults"])
+    if pid == "C03":
+        gconsts["AllowDrop"] = "TRUE"     # generated behaviours include DropPool and the service without a pool
     gcfg = f"_{pid}_{tier}_gen.cfg"
     g = dict(GEN[tier])
     if consts.get("MaxTick", 0) > 0:
